@@ -278,19 +278,58 @@ def check_restriction(n):
 
 
 # ----------------------------------------------------------------------------- (c) percolated network
-def check_percolation(path, max_nodes, label):
-    """percolate_network on the node spaces of a size-limited expansion of a repo model"""
+def free_input_variant(text):
+    """the same model with FREE INPUTS added (variables without any update function; the repository models have none,
+    their inputs were inlined): three of its functions are gated by a fresh input each (f & i / f | !i), so that fixing
+    the input to 1 gives back the model and fixing it to 0 fixes the gated variable"""
+    rules = parse_bnet(text)
+    if not rules:
+        return text, []
+    idx = sorted({0, len(rules) // 2, len(rules) - 1})
+    inputs = []
+    out = []
+    for k, (nm, e) in enumerate(rules):
+        if k in idx:
+            i = f"vinp{len(inputs)}"
+            inputs.append(i)
+            e = f"(({e}) & {i})" if len(inputs) % 2 else f"(({e}) | !{i})"
+        out.append(f"{nm}, {e}")
+    return "\n".join(out) + "\n", inputs
+
+
+def check_percolation(path, max_nodes, label, free_inputs=False):
+    """percolate_network on the node spaces of a size-limited expansion of a repo model; with free_inputs the model's
+    constant variables are free inputs and the spaces fix them (one at a time to 0 and to 1, and all of them)"""
     import biobalm
     from biobalm.space_utils import percolate_network, percolate_space
     text = open(path).read()
+    inputs = []
+    if free_inputs:
+        text, inputs = free_input_variant(text)
+        if not inputs:
+            return 0, 0, []
     funs = dict(parse_bnet(text))
+    for nm in inputs:
+        funs[nm] = nm       # a free input never changes: its dynamics are those of the identity
     sd = biobalm.SuccessionDiagram.from_rules(text)
-    sd.expand_bfs(size_limit=max_nodes)
     fails, q = [], 0
     V = {}
     var = lambda nm: V.setdefault(nm, z3.Bool("x_" + nm))
     F = {nm: parse_expr(e, var) for nm, e in funs.items()}
-    spaces = [sd.node_data(i)["space"] for i in sd.node_ids()][:max_nodes]
+    if free_inputs:
+        if sorted(sd.network.variable_names()) != sorted(funs):
+            return 0, 0, [f"{label}: free-input variant has other variables than the model"]
+        spaces = []
+        for k, nm in enumerate(inputs[:max_nodes]):
+            spaces += [{nm: 0}, {nm: 1}]
+        spaces.append({nm: (k * 7 + len(nm)) % 2 for k, nm in enumerate(inputs)})
+        spaces.append({nm: (k * 5 + len(nm) + 1) % 2 for k, nm in enumerate(inputs)})
+        for nm in inputs:
+            if sd.network.get_update_function(nm) is not None:
+                fails.append(f"{label}: {nm} is not a free input of the variant")
+    else:
+        sd.expand_bfs(size_limit=max_nodes)
+        spaces = [sd.node_data(i)["space"] for i in sd.node_ids()][:max_nodes]
     for S in spaces:
         for rc in (True, False):
             bn = percolate_network(sd.network, S, sd.symbolic, remove_constants=rc)
@@ -319,6 +358,8 @@ def check_percolation(path, max_nodes, label):
                     if r == z3.unsat:
                         fails.append(f"{label}: function of free variable {nm} is constant on the percolated space")
                 uf = bn.get_update_function(nm)
+                if uf is None and nm not in inputs:
+                    fails.append(f"{label}: variable {nm} lost its update function")
                 g = parse_expr(str(uf.as_expression()) if uf is not None else nm, var)
                 s.push()
                 s.add(z3.Xor(F[nm], g))
@@ -335,14 +376,20 @@ def check_percolation(path, max_nodes, label):
                     if nm in remaining:
                         uf = bn.get_update_function(nm)
                         if uf is None:
+                            # a free input fixed by the space is no longer free: it must be the constant
+                            fails.append(f"{label}: input {nm} fixed by the space {dict(list(S.items())[:5])} is still a free parameter (remove_constants=False)")
                             continue
                         g = parse_expr(str(uf.as_expression()), var)
                         s.push()
                         s.add(g != bool(Sp[nm]))
-                        # only a trap-space value is guaranteed to be reproduced; given values may conflict
+                        # the spaces used here are trap spaces: a kept constant reproduces the value fixed by the space
                         r = s.check()
                         q += 1
                         s.pop()
+                        if r == z3.sat:
+                            fails.append(f"{label}: kept constant {nm} does not have the value fixed by the trap space")
+                    else:
+                        fails.append(f"{label}: variable {nm} dropped although remove_constants=False")
     return len(spaces), q, fails
 
 
@@ -372,7 +419,7 @@ def _job(job):
             q, fails = check_restriction(job["n"])
             return {"job": job, "programs": 1, "functions": 0, "queries": q, "fails": fails, "s": time.time() - t0}
         if job["kind"] == "perc":
-            ns, q, fails = check_percolation(job["path"], job["max_nodes"], os.path.basename(job["path"]))
+            ns, q, fails = check_percolation(job["path"], job["max_nodes"], os.path.basename(job["path"]) + ("[free inputs]" if job.get("free") else ""), free_inputs=bool(job.get("free")))
             return {"job": job, "programs": ns, "functions": 0, "queries": q, "fails": fails, "s": time.time() - t0}
     except Exception as e:
         import traceback
@@ -399,7 +446,9 @@ def main(tier, seed, t0, selftest=False):
     os.makedirs(os.path.join(common.ROOT, "scratch"), exist_ok=True)
     sym_tasks = [] if selftest else [
         {"prop": PROP, "family": fam, "label": f"sym/{fam}", "timebox": box, "seed": seed, "params": {"mode": "sym"}}
-        for fam, box in (("U2", 40 if tier == "quick" else 600), ("D3", 40 if tier == "quick" else 900), ("S1C2", 30 if tier == "quick" else 600))]
+        for fam, box in (("U2", 40 if tier == "quick" else 600), ("D3", 40 if tier == "quick" else 900), ("S1C2", 30 if tier == "quick" else 600))] + [
+        {"prop": PROP, "family": fam, "label": f"sym-free-inputs/{fam}", "timebox": box, "seed": seed, "params": {"mode": "sym", "free_inputs": True}}
+        for fam, box in (("U2", 30 if tier == "quick" else 600), ("D3", 30 if tier == "quick" else 900))]
     sym_results = common.run_tasks(sym_tasks) if sym_tasks else []
     paths = sorted(glob.glob(os.path.join(MODELS, "*.bnet")), key=lambda p: os.path.getsize(p))
     q = tier == "quick"
@@ -414,6 +463,8 @@ def main(tier, seed, t0, selftest=False):
         jobs.append({"kind": "restrict", "n": n})
     for p in (paths[:25] if q else paths[:120]):
         jobs.append({"kind": "perc", "path": p, "max_nodes": 4 if q else 8})
+    for p in (paths[:40] if q else paths[:150]):
+        jobs.append({"kind": "perc", "path": p, "max_nodes": 4 if q else 12, "free": True})
     if selftest:
         jobs = [j for j in jobs if j["kind"] == "model"][:3]
         SELFTEST["on"] = True
@@ -456,7 +507,7 @@ def main(tier, seed, t0, selftest=False):
            "functions_encoded": FUNCTIONS,
            "bounds": {"a": f"{len([j for j in jobs if j['kind'] == 'model'])} repository models (all update functions, all states via z3) + all {2 + 16 + 256} functions of <= 3 inputs",
                       "b": "generic net G_n, n in " + str([j["n"] for j in jobs if j["kind"] == "restrict"]) + ": all nets, all subspaces, all states; composition for all compatible pairs of subspaces",
-                      "c": f"{len([j for j in jobs if j['kind'] == 'perc'])} repository models x node spaces of a size-limited expansion, remove_constants on/off",
+                      "c": f"{len([j for j in jobs if j['kind'] == 'perc' and not j.get('free')])} repository models x node spaces of a size-limited expansion, remove_constants on/off; {len([j for j in jobs if j.get('free')])} models with their constant variables turned into free inputs (no update function) x spaces fixing inputs to 0 / 1 / all",
                       "sym": "real network_to_petrinet + percolate_network on symbolic networks (U2 exhaustive, D3, S1C2) x symbolic subspace, results read back completely (checks/c10_sym.py); percolate_network statements for trap spaces only",
                       "outside": "class-level generalisation for percolate_network beyond what was read back (AEON inline_constants/infer_valid_graph are native): per model only"},
            "exhaustive": False}
